@@ -23,6 +23,7 @@ import (
 	"errors"
 	"fmt"
 	"regexp"
+	"sort"
 	"strconv"
 	"strings"
 	"time"
@@ -392,14 +393,29 @@ func GetUniqueTraceIds(pipeSearchResponseOuter *segstructs.PipeSearchResponseOut
 		endIndex = totalTracesIds
 	}
 
+	// The buckets of a group by come in no particular order and every page runs
+	// the query again: sort them so that the pages partition the traces.
+	buckets := make([]*segstructs.BucketHolder, len(pipeSearchResponseOuter.MeasureResults))
+	copy(buckets, pipeSearchResponseOuter.MeasureResults)
+	sort.SliceStable(buckets, func(i, j int) bool {
+		return bucketTraceId(buckets[i]) < bucketTraceId(buckets[j])
+	})
+
 	traceIds := make([]string, 0)
-	for _, bucket := range pipeSearchResponseOuter.MeasureResults[(page-1)*TRACE_PAGE_LIMIT : endIndex] {
+	for _, bucket := range buckets[(page-1)*TRACE_PAGE_LIMIT : endIndex] {
 		if len(bucket.GroupByValues) == 1 {
 			traceIds = append(traceIds, bucket.GroupByValues[0])
 		}
 	}
 
 	return traceIds
+}
+
+func bucketTraceId(bucket *segstructs.BucketHolder) string {
+	if bucket == nil || len(bucket.GroupByValues) != 1 {
+		return ""
+	}
+	return bucket.GroupByValues[0]
 }
 
 // Check if searchText only contains traceId as query condition
